@@ -23,6 +23,52 @@ type vwrite[T comparable] struct {
 	ord       int // position in the sequence of changes (-1: no change observed)
 	prev, new T
 	refEnter  uint64
+	// the value the call writes, if the harness knows it (a change may be announced by another writer's task: the
+	// callback is then attributed to the call in flight that writes the reported value)
+	target    T
+	hasTarget bool
+}
+
+// authorOf finds the write call a callback reporting the value new on task me belongs to. Normally that is the call me is
+// inside; but a change may be announced by another writer's task, so the calls in flight that write the reported value
+// are looked at: one candidate is the author; several (two calls writing the same value at once) make the attribution -
+// and every verdict that rests on it - unreliable for this run (attrFail), while the verdicts that do not need it (chain,
+// final value, exclusiveness, nothing after unsubscribe) stay in force.
+func (w *vworld[T]) authorOf(me *simrt.Task, new T) *vwrite[T] {
+	own := w.cur[me]
+	var cands []*vwrite[T]
+	for _, wr := range w.writes {
+		if wr.ret == 0 && (wr.hasTarget && wr.target == new || !wr.hasTarget && wr == own) {
+			cands = append(cands, wr)
+		}
+	}
+	switch len(cands) {
+	case 0:
+		return own
+	case 1:
+		if cands[0] != own {
+			w.s.Probe("change-announced-on-another-writers-task")
+			w.crossAnnounce = true
+		}
+		return cands[0]
+	}
+	w.unreliable = true
+	w.s.Probe("attribution-ambiguous:two-calls-in-flight-write-the-reported-value")
+	for _, c := range cands {
+		if c == own {
+			return own
+		}
+	}
+	return cands[0]
+}
+
+// attrFail reports a verdict that rests on the attribution of callbacks to write calls.
+func (w *vworld[T]) attrFail(oracle, sig, format string, args ...any) {
+	if w.unreliable {
+		w.s.Probe("attribution-dependent-verdict-skipped")
+		return
+	}
+	w.s.Fail(oracle, sig, format, args...)
 }
 
 type vcb[T comparable] struct {
@@ -55,6 +101,11 @@ type vworld[T comparable] struct {
 	writes  []*vwrite[T]
 	cur     map[*simrt.Task]*vwrite[T]
 	changes []*vwrite[T]
+	// unreliable: a callback could not be attributed to one write call (see authorOf)
+	unreliable bool
+	// crossAnnounce: some change was announced on a task other than its writer's (then "the write call this task is
+	// inside" says nothing about whose change a teardown belongs to)
+	crossAnnounce bool
 }
 
 func newVWorld[T comparable](s *simrt.Sim) *vworld[T] {
@@ -77,7 +128,7 @@ func (w *vworld[T]) callback(sub *vsub[T]) func(prev, new T) {
 		if sub.subRet == 0 && me == sub.task {
 			e.initial = true
 		} else {
-			e.wr = w.cur[me]
+			e.wr = w.authorOf(me, new)
 		}
 		s.Logf("cb %s %s enter prev=%v new=%v", sub.name, cbKind(e.initial), prev, new)
 		if sub.active != nil {
@@ -97,7 +148,7 @@ func (w *vworld[T]) callback(sub *vsub[T]) func(prev, new T) {
 		if sub.ref && e.wr != nil {
 			wr := e.wr
 			if wr.ord >= 0 {
-				s.Fail("exactly-once", "change-delivered-twice", "reference subscription: write %s delivered twice", wr.desc)
+				w.attrFail("exactly-once", "change-delivered-twice", "reference subscription: write %s delivered twice", wr.desc)
 			}
 			wr.ord, wr.prev, wr.new, wr.refEnter = len(w.changes), prev, new, e.enter
 			w.changes = append(w.changes, wr)
@@ -132,9 +183,12 @@ func (w *vworld[T]) unsubscribe(sub *vsub[T]) {
 	w.s.Logf("unsubscribed %s", sub.name)
 }
 
-func (w *vworld[T]) write(desc string, f func()) {
+func (w *vworld[T]) write(desc string, f func(), target ...T) {
 	me := simrt.Current()
 	wr := &vwrite[T]{task: me, desc: desc, ord: -1}
+	if len(target) > 0 {
+		wr.target, wr.hasTarget = target[0], true
+	}
 	w.writes = append(w.writes, wr)
 	w.cur[me] = wr
 	wr.inv = w.s.Tick()
@@ -195,7 +249,7 @@ func (w *vworld[T]) finalChecks(final T) {
 			if hasInitial {
 				sig = "delivered-value-not-current-at-subscription"
 			}
-			s.Fail("initial", sig, "%s (%s): subscription call [%d,%d] started from value %v (initial callback: %v), which the variable did not hold during the call; changes: %s",
+			w.attrFail("initial", sig, "%s (%s): subscription call [%d,%d] started from value %v (initial callback: %v), which the variable did not hold during the call; changes: %s",
 				sub.name, sub.kind, sub.subInv, sub.subRet, base, hasInitial, w.fmtChanges())
 		}
 		last := base
@@ -209,17 +263,17 @@ func (w *vworld[T]) finalChecks(final T) {
 					sub.name, sub.kind, e.prev, e.new, e.enter, last, fmtCbs(sub.cbs), w.fmtChanges())
 			}
 			if e.wr.ord < 0 || e.wr.prev != e.prev || e.wr.new != e.new {
-				s.Fail("chain", "callback-differs-from-change", "%s: callback (%v->%v) ran under %s whose change was (%v->%v, ord %d)", sub.name, e.prev, e.new, e.wr.desc, e.wr.prev, e.wr.new, e.wr.ord)
+				w.attrFail("chain", "callback-differs-from-change", "%s: callback (%v->%v) ran under %s whose change was (%v->%v, ord %d)", sub.name, e.prev, e.new, e.wr.desc, e.wr.prev, e.wr.new, e.wr.ord)
 			}
 			seen[e.wr]++
 			if seen[e.wr] > 1 {
-				s.Fail("exactly-once", "change-delivered-twice", "%s: change (%v->%v) of %s delivered twice", sub.name, e.prev, e.new, e.wr.desc)
+				w.attrFail("exactly-once", "change-delivered-twice", "%s: change (%v->%v) of %s delivered twice", sub.name, e.prev, e.new, e.wr.desc)
 			}
 			last = e.new
 		}
 		for _, c := range w.changes {
 			if c.inv > sub.subRet && (sub.unsubInv == 0 || c.ret < sub.unsubInv) && seen[c] == 0 {
-				s.Fail("exactly-once", "change-missed", "%s (%s, subscribed [%d,%d], unsubscribe invoked %d): change (%v->%v) by %s [%d,%d] was never delivered",
+				w.attrFail("exactly-once", "change-missed", "%s (%s, subscribed [%d,%d], unsubscribe invoked %d): change (%v->%v) by %s [%d,%d] was never delivered",
 					sub.name, sub.kind, sub.subInv, sub.subRet, sub.unsubInv, c.prev, c.new, c.desc, c.inv, c.ret)
 			}
 		}
@@ -343,7 +397,7 @@ func variableBody(s *simrt.Sim) {
 	ref := &vsub[int]{name: "ref", kind: "OnUpdate", ref: true}
 	w.subscribe(ref, func(cb func(prev, new int)) func() { return v.OnUpdate(cb) })
 	if s.Choose(2) == 1 {
-		w.write("main Set(5)", func() { v.Set(5) })
+		w.write("main Set(5)", func() { v.Set(5) }, 5)
 	}
 	nwriters := 1 + s.Choose(3)
 	for i := 0; i < nwriters; i++ {
@@ -359,17 +413,17 @@ func variableBody(s *simrt.Sim) {
 				yields(o.pre)
 				switch o.kind {
 				case 0:
-					w.write(fmt.Sprintf("Set(%d)", o.val), func() { v.Set(o.val) })
+					w.write(fmt.Sprintf("Set(%d)", o.val), func() { v.Set(o.val) }, o.val)
 				case 1:
 					w.write(fmt.Sprintf("Compute(->%d)", o.val), func() {
 						v.Compute(func(int) int { simrt.Yield(); return o.val })
-					})
+					}, o.val)
 				case 2:
 					w.write("Compute(identity)", func() { v.Compute(func(c int) int { return c }) })
 				case 3:
-					w.write("Set(0)", func() { v.Set(0) })
+					w.write("Set(0)", func() { v.Set(0) }, 0)
 				case 4:
-					w.write(fmt.Sprintf("DefaultTo(%d)", o.val), func() { v.DefaultTo(o.val) })
+					w.write(fmt.Sprintf("DefaultTo(%d)", o.val), func() { v.DefaultTo(o.val) }, o.val)
 				}
 			}
 		})
@@ -401,7 +455,7 @@ func eventBody(s *simrt.Sim) {
 	ref := &vsub[bool]{name: "ref", kind: "OnUpdate", ref: true}
 	w.subscribe(ref, func(cb func(prev, new bool)) func() { return ev.OnUpdate(cb) })
 	if s.Choose(4) == 1 {
-		w.write("main Trigger", func() { ev.Trigger() })
+		w.write("main Trigger", func() { ev.Trigger() }, true)
 	}
 	ntrig := s.Choose(4) // 0: the event is never triggered by a task
 	for i := 0; i < ntrig; i++ {
@@ -417,11 +471,11 @@ func eventBody(s *simrt.Sim) {
 				yields(o.pre)
 				switch o.kind {
 				case 0:
-					w.write("Trigger", func() { ev.Trigger() })
+					w.write("Trigger", func() { ev.Trigger() }, true)
 				case 1:
-					w.write("Set(true)", func() { ev.Set(true) })
+					w.write("Set(true)", func() { ev.Set(true) }, true)
 				case 2:
-					w.write("Set(false)", func() { ev.Set(false) })
+					w.write("Set(false)", func() { ev.Set(false) }, false)
 				case 3:
 					w.write("Compute(not)", func() { ev.Compute(func(c bool) bool { return !c }) })
 				}
